@@ -16,12 +16,12 @@ noncomputable def normFac (n : ℕ) (m : ℤ) : ℝ := if m = 0 then (if n = 0 t
 noncomputable def azim (m : ℤ) (θ : ℝ) : ℝ := if m = 0 then 1 else if 0 < m then Real.cos ((m : ℝ) * θ) else Real.sin ((m : ℝ) * θ)
 
 theorem radialEval_zero_zero (ρ : ℝ) : radialEval 0 0 ρ = 1 := by
-  simp [radialEval, radialCoeff, fact, powK]
+  simp [radialEval, radialCoeff, Gen.radialNum, Gen.radialDen, Gen.fact, powK]
 
 /-- **the model's mode is normalisation · radial polynomial · azimuthal factor** -/
 theorem zReal_factor (j : ℕ) (ρ θ : ℝ) :
     zReal j ρ θ = normFac (nollN j) (nollM j) * radialEval (nollN j) (nollM j).natAbs ρ * azim (nollM j) θ := by
-  unfold zReal zernAt zernCore normFac azim
+  unfold zReal zernAt Gen.zernCore normFac azim
   by_cases h0 : nollM j = 0
   · by_cases hn : nollN j = 0
     · simp [h0, hn, radialEval_zero_zero]
